@@ -8,7 +8,7 @@
 //	gate    SCENARIO.json          2 callers under the gate scheduler (hook H7): complete interleaving graph of
 //	                               the real code at critical-section granularity, with P-level events per edge
 //	race    OUT.ndjson SEED H G K  free-running goroutines, call/ret history for linearizability by TLC
-//	timeout OUT.ndjson SEED N      50 ms reassembly timeout: fragments, sleep 120 ms, the rest
+//	timeout OUT.ndjson SEED N      400 ms reassembly timeout, timed arrivals (creeping / one long gap / fast), t0/t1 per call
 //	steps / gatepath IN OUT        re-run one recorded sequence / gate schedule (vcheck --replay)
 //
 // Every call of Process runs under recover(); a panic is reported, never fatal.
@@ -391,7 +391,7 @@ func callEv(g int, fr frag, v variant, ep int) (map[string]interface{}, int, int
 	first, last := v.byteRange(fr)
 	vv, ref := mkvv(fr.K, ep, first, last, v.Views)
 	return map[string]interface{}{"ev": "call", "g": g, "k": fr.K, "first": first, "last": last, "more": fr.More,
-		"bytes": ints(ref), "ep": ep}, first, last, vv
+		"bytes": ints(ref), "ep": ep, "t0": 0, "t1": 0}, first, last, vv
 }
 
 func retEv(g int, r result) map[string]interface{} {
@@ -485,35 +485,41 @@ func race(out string, seed int64, hists, G, K int) {
 	tr.Close()
 }
 
-// timeoutMode: fragments of epoch 0, a sleep longer than the reassembly
-// timeout, then epoch 1.  Only lower bounds on time are used: the sleep is at
-// least 120 ms > 50 ms; nothing is assumed about how fast the rest runs.
+// timeoutMode: real-clock histories on a Fragmentation with a short reassembly
+// timeout T.  Every call is logged with the harness clock read before the
+// call (t0, rounded down) and after its return (t1, rounded up); the trace
+// spec derives from them which fragments are certainly older / certainly
+// younger than T when a later fragment is processed, so scheduling jitter can
+// only make the verdict weaker, never wrong.  Shapes:
+//
+//	creep  some fragments at 0, one at 0.6 T, the last one (content of a later datagram that reuses
+//	       the id) at 1.25 T: every gap is shorter than T, first-to-last is longer
+//	gap    fragments, one pause of 1.3 T, the rest
+//	fast   all fragments well inside T: must be delivered
+//
+// and afterwards the early fragments again with the later content.
+const timeoutMS = 400
+
 func timeoutMode(out string, seed int64, n int) {
 	tr := vh.NewTrace(out)
 	r := rand.New(rand.NewSource(seed))
+	T := time.Duration(timeoutMS) * time.Millisecond
 	type tcase struct {
 		v      variant
+		shape  string
 		k, d   int
-		a, b   []frag
+		fs     []frag
 		events []map[string]interface{}
 	}
+	shapes := []string{"creep", "creep", "gap", "fast"}
 	cases := make([]*tcase, n)
 	for i := range cases {
-		c := &tcase{v: seqVariants[1+r.Intn(2)], k: 1 + r.Intn(3), d: 2 + r.Intn(3)}
-		// partition into single-block fragments (plus sometimes a 2-block one), hold one back for epoch 1
-		var fs []frag
+		c := &tcase{v: seqVariants[1+r.Intn(2)], shape: shapes[i%len(shapes)], k: 1 + r.Intn(3), d: 3 + r.Intn(2)}
 		for b := 0; b < c.d; b++ {
-			fs = append(fs, frag{K: c.k, First: b, Last: b, More: b < c.d-1})
+			c.fs = append(c.fs, frag{K: c.k, First: b, Last: b, More: b < c.d-1})
 		}
-		hold := r.Intn(len(fs))
-		for j, fr := range fs {
-			if j == hold {
-				c.b = append(c.b, fr)
-			} else {
-				c.a = append(c.a, fr)
-			}
-		}
-		r.Shuffle(len(c.a), func(x, y int) { c.a[x], c.a[y] = c.a[y], c.a[x] })
+		// the true last fragment is sent last; the others in random order
+		r.Shuffle(c.d-1, func(x, y int) { c.fs[x], c.fs[y] = c.fs[y], c.fs[x] })
 		cases[i] = c
 	}
 	var wg sync.WaitGroup
@@ -521,21 +527,40 @@ func timeoutMode(out string, seed int64, n int) {
 		wg.Add(1)
 		go func(i int, c *tcase) {
 			defer wg.Done()
-			f := fragmentation.NewFragmentation(bigMem, bigMem/2, 50*time.Millisecond)
-			c.events = append(c.events, map[string]interface{}{"ev": "reset", "mode": "safety", "case": i, "variant": c.v.Name, "timeout_ms": 50, "sleep_ms": 120})
+			f := fragmentation.NewFragmentation(bigMem, bigMem/2, T)
+			c.events = append(c.events, map[string]interface{}{"ev": "reset", "mode": "timed", "case": i, "shape": c.shape,
+				"variant": c.v.Name, "timeout_ms": timeoutMS})
+			start := time.Now()
 			send := func(fr frag, ep int) {
 				ev, first, last, vv := callEv(0, fr, c.v, ep)
-				c.events = append(c.events, ev)
-				c.events = append(c.events, retEv(0, call(f, keyID(fr.K), first, last, fr.More, vv)))
+				ev["t0"] = int(time.Since(start) / time.Millisecond) // rounded down
+				res := call(f, keyID(fr.K), first, last, fr.More, vv)
+				ev["t1"] = int((time.Since(start) + time.Millisecond - 1) / time.Millisecond) // rounded up
+				c.events = append(c.events, ev, retEv(0, res))
 			}
-			for _, fr := range c.a {
-				send(fr, 0)
+			n := len(c.fs)
+			switch c.shape {
+			case "creep":
+				for _, fr := range c.fs[:n-2] {
+					send(fr, 0)
+				}
+				time.Sleep(T * 60 / 100)
+				send(c.fs[n-2], 0)
+				time.Sleep(T * 65 / 100)
+				send(c.fs[n-1], 1)
+			case "gap":
+				for _, fr := range c.fs[:n-1] {
+					send(fr, 0)
+				}
+				time.Sleep(T * 130 / 100)
+				send(c.fs[n-1], 1)
+			case "fast":
+				for _, fr := range c.fs {
+					send(fr, 0)
+					time.Sleep(T * 5 / 100)
+				}
 			}
-			time.Sleep(120 * time.Millisecond)
-			for _, fr := range c.b { // completes the set only together with the expired fragments
-				send(fr, 1)
-			}
-			for _, fr := range c.a { // the same fragments again, fresh: a complete epoch-1 set
+			for _, fr := range c.fs[:n-1] { // the early fragments again, with the later datagram's content
 				send(fr, 1)
 			}
 		}(i, c)
